@@ -9,7 +9,7 @@ import lib
 import suites
 
 PROP = 'C02'
-LEAN_TARGETS = ['CGV.Props.C02']
+LEAN_TARGETS = ['CGV.Props.C02', 'CGV.Props.C02Step']
 RULE = ('random base-graph strings x fragment dictionaries (atomistic and coarse, repeated names, internal rings, '
         'ambiguous descriptors), fragmented molecules, multi-level descriptions; every resolution step is executed by '
         'implementation and Lean model (exact dump of fine graph, membership, per-coarse-node node lists); oracle: '
